@@ -12,6 +12,9 @@ type Trial struct {
 	Start      string `json:"start"` // barrier, two-waves, gosched
 	Yields     []int  `json:"yields,omitempty"`
 	Goroutines [][]Op `json:"goroutines"`
+	// Reps: every operation is executed this many times in a row (>= 1); each repetition must give the same
+	// result.  Repetition widens the window for value corruption that is not a data race.
+	Reps int `json:"reps,omitempty"`
 }
 
 // Lazy operations: their first call builds a package-level table.
